@@ -358,6 +358,8 @@ def register_converter_handler(handler: ConverterHandler) -> None:
     add runtime to [`make_converter`][pane.convert.make_converter].
     """
     _GLOBAL_HANDLERS.append(handler)
+    # converters made so far were made without asking `handler`
+    make_converter.cache_clear()
 
 
 def _annotated_converter(ty: IntoConverter, args: t.Sequence[t.Any], *,
